@@ -71,6 +71,10 @@ def check(run):
     R.rule('C09.hang', 'no hang after a failed or unanswered Close: the close time is recorded whenever close() was '
                        'attempted and the close timeout fires when due', 3)
     C15.close(R, RID='C09.hang')
+    from . import C18 as _C18
+    with R.as_rule('C09.hang'):
+        _C18.level(R)            # an error / invalid-descriptor wake-up (POLLERR, POLLNVAL alone) is "readable": recv() is what
+                                 # turns it into Disconnected - a selector that filters the mask spins on it for ever
     proxyread(R)
     teardown(R)
     from . import C13
